@@ -14,6 +14,8 @@ impl ReasonLike for PropositionalConjunction {
 pub struct PropagationContextMut<'a> {
     pub assignments: &'a mut Assignments,
     pub constraint: Ghost<Model>,
+    // ghost mirror of `reification_literal.is_some()`
+    pub reified: Ghost<bool>,
 }
 
 // "the variable is fixed in the current store": all live assignments give it the same value.  Stated through
@@ -74,7 +76,7 @@ impl<'a> PropagationContextMut<'a> {
     #[verifier::external_body]
     fn set_lower_bound_core<V: IntegerVariable, R: ReasonLike>(&mut self, var: &V, bound: i32, reason: R) -> (r: Result<(), EmptyDomain>)
         ensures
-            final(self).constraint == old(self).constraint,
+            final(self).constraint == old(self).constraint, final(self).reified == old(self).reified,
             forall|x: Asg| #[trigger] (final(self).live())(x) <==> ((old(self).live())(x) && var.eval(x) >= bound),
             *final(final(self).assignments) == *final(old(self).assignments),
             r is Err ==> live_empty(final(self).live()),
@@ -89,7 +91,7 @@ impl<'a> PropagationContextMut<'a> {
             // @C17 @C02 @C06 (b) constraint and reason imply the propagated bound
             forall|a: Asg| #![trigger reason.holds(a)] (old(self).constraint@)(a) && reason.holds(a) ==> var.eval(a) >= bound,
         ensures
-            final(self).constraint == old(self).constraint,
+            final(self).constraint == old(self).constraint, final(self).reified == old(self).reified,
             forall|x: Asg| #[trigger] (final(self).live())(x) <==> ((old(self).live())(x) && var.eval(x) >= bound),
             *final(final(self).assignments) == *final(old(self).assignments),
             r is Err ==> live_empty(final(self).live()),
@@ -104,7 +106,7 @@ impl<'a> PropagationContextMut<'a> {
     #[verifier::external_body]
     fn set_upper_bound_core<V: IntegerVariable, R: ReasonLike>(&mut self, var: &V, bound: i32, reason: R) -> (r: Result<(), EmptyDomain>)
         ensures
-            final(self).constraint == old(self).constraint,
+            final(self).constraint == old(self).constraint, final(self).reified == old(self).reified,
             forall|x: Asg| #[trigger] (final(self).live())(x) <==> ((old(self).live())(x) && var.eval(x) <= bound),
             *final(final(self).assignments) == *final(old(self).assignments),
             r is Err ==> live_empty(final(self).live()),
@@ -119,7 +121,7 @@ impl<'a> PropagationContextMut<'a> {
             // @C17 @C02 @C06 (b) constraint and reason imply the propagated bound
             forall|a: Asg| #![trigger reason.holds(a)] (old(self).constraint@)(a) && reason.holds(a) ==> var.eval(a) <= bound,
         ensures
-            final(self).constraint == old(self).constraint,
+            final(self).constraint == old(self).constraint, final(self).reified == old(self).reified,
             forall|x: Asg| #[trigger] (final(self).live())(x) <==> ((old(self).live())(x) && var.eval(x) <= bound),
             *final(final(self).assignments) == *final(old(self).assignments),
             r is Err ==> live_empty(final(self).live()),
@@ -133,7 +135,7 @@ impl<'a> PropagationContextMut<'a> {
     #[verifier::external_body]
     fn remove_core<V: IntegerVariable, R: ReasonLike>(&mut self, var: &V, value: i32, reason: R) -> (r: Result<(), EmptyDomain>)
         ensures
-            final(self).constraint == old(self).constraint,
+            final(self).constraint == old(self).constraint, final(self).reified == old(self).reified,
             forall|x: Asg| #[trigger] (final(self).live())(x) <==> ((old(self).live())(x) && var.eval(x) != value),
             *final(final(self).assignments) == *final(old(self).assignments),
             r is Err ==> live_empty(final(self).live()),
@@ -148,7 +150,7 @@ impl<'a> PropagationContextMut<'a> {
             // @C17 @C02 @C06 (b) constraint and reason imply that the value is impossible
             forall|a: Asg| #![trigger reason.holds(a)] (old(self).constraint@)(a) && reason.holds(a) ==> var.eval(a) != value,
         ensures
-            final(self).constraint == old(self).constraint,
+            final(self).constraint == old(self).constraint, final(self).reified == old(self).reified,
             forall|x: Asg| #[trigger] (final(self).live())(x) <==> ((old(self).live())(x) && var.eval(x) != value),
             *final(final(self).assignments) == *final(old(self).assignments),
             r is Err ==> live_empty(final(self).live()),
